@@ -21,6 +21,7 @@ import (
 	ocispec "github.com/opencontainers/image-spec/specs-go/v1"
 	"oras.land/oras-go/v2/content"
 	"oras.land/oras-go/v2/content/oci"
+	"oras.land/oras-go/v2/errdef"
 	"oras.land/oras-go/v2/registry/remote"
 	"verif/harness/vh"
 )
@@ -191,6 +192,27 @@ func (s *server) RoundTrip(req *http.Request) (*http.Response, error) {
 		ContentLength: clen}, nil
 }
 
+// tagSchemaServer is a registry without the Referrers API: the referrers of the subject are listed by an image index
+// stored under the referrers tag.
+type tagSchemaServer struct {
+	c     Case
+	paths []string
+}
+
+func (s *tagSchemaServer) RoundTrip(req *http.Request) (*http.Response, error) {
+	s.paths = append(s.paths, req.URL.Path)
+	ms := []ocispec.Descriptor{}
+	for i := 1; i <= s.c.Len; i++ {
+		ms = append(ms, refDesc(i, s.c.Types[i-1]))
+	}
+	body, _ := json.Marshal(map[string]any{"schemaVersion": 2, "mediaType": ocispec.MediaTypeImageIndex, "manifests": ms})
+	h := http.Header{"Content-Type": {ocispec.MediaTypeImageIndex}}
+	if req.Method == http.MethodHead {
+		return &http.Response{StatusCode: 200, Status: "200 OK", Header: h, Body: io.NopCloser(strings.NewReader("")), Request: req, ContentLength: int64(len(body))}, nil
+	}
+	return &http.Response{StatusCode: 200, Status: "200 OK", Header: h, Body: io.NopCloser(strings.NewReader(string(body))), Request: req, ContentLength: int64(len(body))}, nil
+}
+
 var errCb = errors.New("verif: callback error")
 
 // ociTags lists the tags of an OCI layout in which the names item(i) with Types[i-1] == "A" are tags.
@@ -280,6 +302,50 @@ func TestDrive(t *testing.T) {
 					"limit": limit, "wantpath": "", "variant": variant})
 			}
 			continue
+		}
+		if c.API == "referrers" && c.N == 0 && c.M == 0 && c.Link == "abs" && c.Oversize == 0 && c.CbFail <= 1 && !c.ServerFilters {
+			// the same listing from a registry without the Referrers API (referrers tag schema): one index, filtered by
+			// the client; the failing callback fails with an error that wraps ErrNotFound (as a callback that fetches
+			// each referrer would when one is gone)
+			ts := &tagSchemaServer{c: c}
+			r, _ := remote.NewRepository(host + "/" + repo)
+			r.PlainHTTP, r.Client, r.MaxMetadataBytes = true, &http.Client{Transport: ts}, limit
+			r.SetReferrersCapability(false)
+			at := ""
+			if c.Filter != "" {
+				at = "application/vnd." + c.Filter
+			}
+			pages := [][]int{}
+			errGone := fmt.Errorf("referrer is gone: %w", errdef.ErrNotFound)
+			callErr := r.Referrers(ctx, subject, at, func(ds []ocispec.Descriptor) error {
+				idx := []int{}
+				for _, d := range ds {
+					i, _ := strconv.Atoi(d.Annotations["idx"])
+					idx = append(idx, i)
+				}
+				pages = append(pages, idx)
+				if c.CbFail != 0 && len(pages) == c.CbFail {
+					return errGone
+				}
+				return nil
+			})
+			outcome := "ok"
+			switch {
+			case callErr == nil:
+			case callErr == errGone || errors.Is(callErr, errGone):
+				outcome = "cb"
+			default:
+				outcome = "err:" + callErr.Error()
+			}
+			reqs := []reqRec{}
+			for _, p := range ts.paths {
+				reqs = append(reqs, reqRec{Path: p, Filter: c.Filter})
+			}
+			n++
+			tr := rot.Next()
+			tr.Begin(n)
+			tr.Emit(map[string]any{"e": "page", "case": ci, "c": c, "pages": pages, "reqs": reqs, "outcome": outcome, "consumed": []int{},
+				"limit": limit, "wantpath": "/v2/" + repo + "/manifests/" + strings.Replace(subject.Digest.String(), ":", "-", 1), "tagschema": true})
 		}
 		// every case with a Content-Length; the oversize cases and every fourth other case also without one
 		for _, noLen := range []bool{false, true} {
